@@ -14,7 +14,7 @@
 (* concretises classes and faults; it decides nothing.                      *)
 (***************************************************************************)
 EXTENDS Engine, Json
-CONSTANTS Mode, MaxRows, MaxAt
+CONSTANTS Mode, MaxRows, MaxAt, Stride, MaxStrides, Stride2, MaxStrides2
 
 Classes == [ int       |-> <<"0", "neg", "i32max", "max", "min">>,
              bigint    |-> <<"7", "max", "min">>,
@@ -73,13 +73,34 @@ RtScenarios2 ==   { Setup2 \o << ApiRow2(r), [a |-> "saveload", fmt |-> f], SelA
 
 \* ---------- fault model (C20) ----------
 \* offsets are absolute from the start (0 .. MaxAt) or from the end (negative); offsets outside the file are skipped
-Ats == (0..MaxAt) \cup { -k : k \in 1..16 }
+\* plus every Stride-th byte of the first MaxStrides * Stride bytes: the middle of the file holds the catalog (expression trees of
+\* CHECK constraints, triggers and views, with their element counts) and the row data
+Ats == (0..MaxAt) \cup { -k : k \in 1..16 } \cup { k * Stride : k \in 1..MaxStrides }
 Faults ==   { [kind |-> "trunc", at |-> k, bit |-> 0, v |-> "", seed |-> 0] : k \in Ats }
        \cup { [kind |-> "flip", at |-> k, bit |-> b, v |-> "", seed |-> 0] : k \in Ats, b \in {0, 7} }
        \cup { [kind |-> "set4", at |-> k, bit |-> 0, v |-> x, seed |-> 0] : k \in Ats, x \in {"0", "1", "7fffffff", "ffffffff"} }
        \cup { [kind |-> "garbage", at |-> k, bit |-> 0, v |-> "", seed |-> s] : k \in {0, 5, 6, 16, 64}, s \in 1..3 }
+Ats2 == { k * Stride2 : k \in 0..MaxStrides2 } \cup { -k : k \in 1..16 }
+Faults2 ==   { [kind |-> "trunc", at |-> k, bit |-> 0, v |-> "", seed |-> 0] : k \in Ats2 }
+        \cup { [kind |-> "flip", at |-> k, bit |-> b, v |-> "", seed |-> 0] : k \in Ats2, b \in {0, 4, 7} }
+        \cup { [kind |-> "set4", at |-> k, bit |-> 0, v |-> x, seed |-> 0] : k \in Ats2, x \in {"0", "1", "7fffffff", "ffffffff"} }
 FaultBase == Setup \o << ApiRow(FullRow(1)), ApiRow(FullRow(2)), ApiRow(FullRow(3)) >>
-FaultScenarios == { FaultBase \o << [a |-> "corruptload", fmt |-> f, fault |-> x] >> : f \in Fmts, x \in Faults }
+\* a second saved database whose catalog holds expression trees with lists: a CHECK constraint, a trigger whose WHEN has an IN
+\* list and a function call, a view with CASE and an IN list
+C2(n, ty) == [n |-> n, ty |-> ty, nn |-> FALSE, pk |-> FALSE, uq |-> FALSE, def |-> NoDef]
+WhenE == AndE(InListE(QCol("NEW", "V"), <<Lit(I(1)), Lit(I(2)), Lit(I(3))>>, FALSE), CmpE(">", CoalesceE(<<QCol("NEW", "ID"), Lit(I(0))>>), Lit(I(0))))
+FaultBase2 == << [a |-> "ct", t |-> "T1", cols |-> << C2("ID", "INTEGER"), C2("V", "INTEGER") >>, pk |-> <<>>, uqs |-> <<>>,
+                  checks |-> << InListE(Col("V"), <<Lit(I(0)), Lit(I(1)), Lit(I(2)), Lit(I(3))>>, FALSE) >>, fks |-> <<>>],
+                 [a |-> "ct", t |-> "AUD", cols |-> << C2("TG", "VARCHAR(10)"), C2("OID", "INTEGER"), C2("OV", "INTEGER"), C2("NID", "INTEGER"), C2("NV", "INTEGER") >>,
+                  pk |-> <<>>, uqs |-> <<>>, checks |-> <<>>, fks |-> <<>>],
+                 [a |-> "ctrg", n |-> "WI", t |-> "T1", timing |-> "after", ev |-> "ins", gran |-> "row", ofcols |-> <<>>, when |-> WhenE,
+                  body |-> [k |-> "audit", into |-> "AUD", tag |-> "WI", src |-> ""], c |-> <<"ID", "V">>],
+                 [a |-> "cv", n |-> "V1", cols |-> <<>>,
+                  q |-> [BaseSel(TableRef("T1")) EXCEPT !.where = InListE(Col("V"), <<Lit(I(1)), Lit(I(2))>>, FALSE)]],
+                 InsertV("T1", << <<I(1), I(1)>>, <<I(2), I(0)>> >>) >>
+FaultScenarios ==   { FaultBase \o << [a |-> "corruptload", fmt |-> f, fault |-> x] >> : f \in Fmts, x \in Faults }
+               \* (the catalog of the second database is sampled densely in the binary format: every Stride2-th byte)
+               \cup { FaultBase2 \o << [a |-> "corruptload", fmt |-> "binary", fault |-> x] >> : x \in Faults2 }
 
 Scenarios == IF Mode = "rt" THEN RtScenarios \cup RtScenarios2 ELSE FaultScenarios
 ASSUME \A s \in Scenarios : PrintT(<<"REPLAY", ToJson(s)>>)
